@@ -12,3 +12,7 @@ NOINLINE = [DE + r'get_function_object_int\(', DE + r'get_object\(', DE + r'get_
             r'eval_error::eval_error\(', r'eval_error::~eval_error\(', r'name_conflict_error::name_conflict_error', r'global_non_const::global_non_const',
             r'File_Position::File_Position'] + STRING_MODEL
 FAM = Family('engine', 'engine.cpp', noinline=NOINLINE)
+# the same TU with std::vector<Boxed_Value> growth pinned as well: call nodes that collect their arguments in a vector (Fun_Call with arguments, Dot_Access)
+# are decided with push_back / reserve / make_vector as recorder stubs over harness storage (the real growth code in a byte-addressed temporary: out of memory)
+VBV = r'^std::vector<chaiscript::Boxed_Value, std::allocator<chaiscript::Boxed_Value> >::'
+FAM_CALLS = Family('engine_calls', 'engine.cpp', noinline=NOINLINE + [VBV + r'(push_back|emplace_back<|reserve|_M_realloc_insert<|vector|~vector)\(', r'^auto chaiscript::make_vector<', r'chaiscript::make_vector<'])
